@@ -258,8 +258,8 @@ def _main(pid, args, seed):
     if meta.get("exhaustive_note"):
         cov["exhaustive_note"] = meta["exhaustive_note"]
     if level == "translation_validation":
-        cov.setdefault("programs", cov.get("programs", 0))
-        cov.setdefault("disagreements_checked", cov.get("disagreements_checked", 0))
+        cov.setdefault("programs", 0)
+        cov["disagreements_checked"] = merged["evaluations"]  # every (pair, rule method, hash seed) comparison
     ev = {
         "property_id": pid,
         "tier": args.tier,
